@@ -624,7 +624,7 @@ theorem uShr_spec (a : Nat) (k : Int) :
         · simp only [hd, if_true]; rw [key _ (by omega) hd]
         · simp only [hd, if_false]
 
-theorem canon_val_zero_iff {a : VInt} (ha : a.Canon) : a.val = 0 ↔ a.mag = 0 := by
+theorem vint_canon_val_zero_iff {a : VInt} (ha : a.Canon) : a.val = 0 ↔ a.mag = 0 := by
   rw [VInt.val_eq_toInt]
   unfold VInt.Canon at ha
   constructor
@@ -640,7 +640,7 @@ theorem iShl_spec (a : VInt) (k : Int) (ha : a.Canon) :
                else .ok (VInt.ofInt (a.val * 2 ^ k.toNat)) := by
   unfold iShl
   rw [uShl_spec]
-  have hz := canon_val_zero_iff ha
+  have hz := vint_canon_val_zero_iff ha
   by_cases hk : k < 0
   · simp only [hk, if_true]; rfl
   · simp only [hk, if_false, ne_eq, hz]
